@@ -87,7 +87,37 @@ fn comment_file(lang: &str, rng: &mut Rng) -> B {
     let mut last_was_comment = false;
     for _ in 0..nseg {
         let fill = FILL[rng.below(FILL.len())];
-        match rng.below(6) {
+        match rng.below(8) {
+            // a line addressed to a tool, followed by prose in the same comment block (whatever the front-end makes of
+            // the first line - words or nothing -, the second keeps its place)
+            6 => {
+                let d = ["eslint-disable-next-line no-console", "noqa: E501", "shellcheck disable=SC2086", "type: ignore", "NOLINT(readability-magic)",
+                    "clang-format off", "@ts-ignore", "pylint: disable=line-too-long", "rubocop:disable Metrics", "TODO(bob): later", "SAFETY: fine", "cspell:ignore qq"][rng.below(12)];
+                b.nonprose("leader", &format!("{indent}{lead}"));
+                b.nonprose("prose", d);
+                b.nonprose("ws", "\n");
+                b.nonprose("leader", &format!("{indent}{lead}"));
+                { let k = rng.range(2, 5); b.prose_words(rng, k); }
+                b.nonprose("ws", "\n");
+                last_was_comment = true;
+            }
+            // a fenced code block inside a comment (the line-based comment front-ends skip it); sometimes with a line of
+            // tildes inside, which is content and closes nothing
+            7 if matches!(lang, "rust" | "python" | "c" | "cpp" | "ruby" | "lua" | "shellscript") => {
+                let codez = b.forbid("codezzq");
+                b.nonprose("leader", &format!("{indent}{lead}"));
+                { let k = rng.range(2, 4); b.prose_words(rng, k); }
+                b.nonprose("ws", "\n");
+                b.nonprose("code", &format!("{indent}{lead}```\n{indent}{lead}let {codez} = 1;\n"));
+                if rng.chance(1, 2) { b.nonprose("code", &format!("{indent}{lead}~~~\n{indent}{lead}then {codez} again\n")); }
+                if rng.chance(1, 4) { b.nonprose("code", &format!("{indent}{lead}~~~~ {codez}\n{indent}{lead}~~~\n")); }
+                b.nonprose("code", &format!("{indent}{lead}```\n"));
+                b.nonprose("leader", &format!("{indent}{lead}"));
+                { let k = rng.range(2, 4); b.prose_words(rng, k); }
+                b.nonprose("ws", "\n");
+                last_was_comment = true;
+            }
+            7 => { code_line(lang, fill, &mut b); last_was_comment = false; }
             0 => { code_line(lang, fill, &mut b); last_was_comment = false; }
             1 => {
                 if matches!(lang, "toml" | "cmake" | "java" | "csharp") { code_line(lang, fill, &mut b); last_was_comment = false; }
